@@ -47,3 +47,17 @@ func init() {
 		return 0
 	}
 }
+
+func init() {
+	extraCmds["sections"] = func(args []string) int {
+		p, err := core.Load(core.LoadOpts{Repo: "/repo", NeedCG: true})
+		if err != nil {
+			fmt.Println(err)
+			return 2
+		}
+		rep := core.NewReport("C08", "quick")
+		c := rules.NewCtx(p, rep, "quick")
+		fmt.Println(c.DebugSections())
+		return 0
+	}
+}
